@@ -109,11 +109,14 @@ pub fn run_c13(tier: Tier) -> i32 {
 }
 
 /// Re-execute one schedule of one configuration and print the annotated trace.
-pub fn trace(prop: &str, tier: Tier, idx: usize, choices: &[u16], max_polls: u64) -> crate::simnet::ExecRecord {
+pub fn trace(prop: &str, tier: Tier, idx: usize, choices: &[u16], script: Option<Vec<String>>, max_polls: u64) -> crate::simnet::ExecRecord {
     let cfgs = if prop == "C13" { configs(tier, J_LIVENESS, true) } else { configs(tier, J_WINDOW, false) };
     let c = &cfgs[idx];
     println!("config #{idx}: {} cap={} senders={:?} cancels={} batch={} bp={}", c.ep.label(), c.cap, c.senders, c.cancels, c.batch, c.bp);
-    crate::simnet::run_one::<Out>(c, choices, max_polls)
+    match script {
+        Some(sc) => crate::simnet::run_script::<Out>(c, &sc, max_polls),
+        None => crate::simnet::run_one::<Out>(c, choices, max_polls),
+    }
 }
 
 pub fn bench() {
